@@ -1090,7 +1090,7 @@ def export_trace(trace: Trace, variant: dict, interner: Interner, rid: str,
         if e["ev"] in ("return", "dup") and v["family"] == "transform":
             raw = e.get("raw")
             if raw is None or not is_node(raw):
-                out.update(raw=-1, rawcl=-1, fresh=False, lbl=False, och=[])
+                out.update(raw=-1, rawcl=-1, fresh=False, lbl=False, och=[], fsame=True)
             else:
                 was_known = id(raw) in g.num or id(raw) in fresh
                 node = e["obj"]
@@ -1098,7 +1098,11 @@ def export_trace(trace: Trace, variant: dict, interner: Interner, rid: str,
                 och = [objnum(kids.pop(p)) if p in kids else 0 for p in g.paths[k - 1]]
                 if kids:
                     och.append(-1)
+                fn_a = [c for _, _, c in direct_children(raw) if is_function(c)]
+                fn_b = [c for _, _, c in direct_children(node) if is_function(c)]
                 out.update(raw=objnum(raw), rawcl=interner.cls(raw), fresh=not was_known,
+                           fsame=len(fn_a) == len(fn_b) and all(
+                               a is b for a, b in zip(fn_a, fn_b)),
                            lbl=_masked_sig(raw, interner) == _masked_sig(node, interner),
                            och=och)
             if e["ev"] == "return":
@@ -1223,6 +1227,17 @@ def make_profiles() -> dict[str, Profile]:
         accept_exc=((NotImplementedError, "Function definitions are purposefully left"),),
         note="instantiated through a 3-line subclass that supplies get_cache_key, as the "
              "base class requires of users that pass extra arguments")
+    class IdKeyedCopy(pt.transform.CopyMapper):        # the key function of CodeGenPreprocessor
+        def get_cache_key(self, expr):                 # type: ignore[override]
+            return id(expr)
+
+        def get_function_definition_cache_key(self, expr):      # type: ignore[override]
+            return id(expr)
+    P[T + "CopyMapper#idkey"] = Profile(
+        make=lambda r, g: IdKeyedCopy(), override={"ident": True, "bound": True},
+        note="a 4-line subclass keyed by id(expr): with structural duplicates every object "
+             "is mapped, and TransformMapperCache.add must hand out the first-seen equal "
+             "result")
     P[T + "Deduplicator"] = Profile(make=lambda r, g: pt.transform.Deduplicator(),
                                     override={"ident": True, "bound": True})
     P[T + "DependencyMapper"] = Profile(
